@@ -7,18 +7,20 @@
 import PydapModel.Handler
 import Proofs.Handler
 import Proofs.HandlerWF
+import Proofs.HandlerWire
+import Proofs.HandlerTyped
 namespace Pydap.C06
 open Pydap Pydap.Handler
 
 /-- **One constrained dataset, three printers**: for every query that yields a constrained dataset,
     the DDS response is its declaration, the data response is that same declaration, `Data:`, and
-    its values in wire order, and the ASCII response is that same declaration, the separator and
+    the XDR encoding (`payload`: C05's model of `dods()` applied to that same dataset), and the ASCII response is that same declaration, the separator and
     the ASCII listing of that same dataset. -/
 theorem C06_same_decl (fmt : Int → Str) (ds : Dataset) (q : Str) (cds : Dataset)
     (h : constrained ds q = .ok cds) :
     respond fmt ds cs!"dds" q = .ok .dds (.complete (ddsText cds)) ∧
     respond fmt ds cs!"dods" q
-      = .ok .dods (.complete (ddsText cds ++ cs!"Data:\n" ++ valuesText (dodsValues cds))) ∧
+      = .ok .dods (.complete (ddsText cds ++ cs!"Data:\n" ++ bytesStr (payload cds))) ∧
     (∀ t, asciiData fmt cds = .ok t →
       respond fmt ds cs!"ascii" q = .ok .ascii (.complete (ddsText cds ++ dashes ++ t))) := by
   have e1 : rsplitDot (cs!"/d." ++ cs!"dds") = some (cs!"/d", cs!"dds") := by decide
@@ -149,10 +151,102 @@ theorem C06_ascii_strings_quoted (fmt : Int → Str) (sh : List Nat) (ss : List 
   rw [List.zip_map_right, List.flatMap_map]
   rfl
 
-/-- …and the data response carries that same string as C05's XDR string field (length word, bytes,
-    zero padding to 4n): the Handler model re-uses `XdrSpec.encString`, it does not re-model it -/
-theorem C06_string_wire (s : Str) :
-    valText (.str s) = 's' :: hexText (Pydap.XdrSpec.encString (s.map fun c => UInt8.ofNat c.toNat)) := rfl
+/-- **the data response is C05's body of the constrained dataset**, byte for byte: declaration,
+    `Data:\n`, `dods()` of the declaration and data the DDS / ASCII printers were given
+    (`Xdr.body`, `Xdr.encImpl`: the model of `responses/dods.py` tied and proved exact in C05) -/
+theorem C06_dods_body (cds : Dataset) :
+    strBytes (ddsText cds ++ cs!"Data:\n" ++ bytesStr (payload cds))
+      = Xdr.body (strBytes (ddsText cds)) (tmplOf cds) (dataOf cds) := by
+  rw [strBytes_append, strBytes_append, strBytes_bytesStr]
+  rfl
+
+/-- **Content-Length**: on a well-formed source, for every query that yields a constrained dataset,
+    whenever `calculate_size` announces a length it is the length of the body of the data response
+    — all element types, Byte arrays with their padding included (a Byte array of `n` values takes
+    `8 + n + (-n mod 4)` bytes), scalars, structures, grids -/
+theorem C06_content_length (fmt : Int → Str) (ds cds : Dataset) (q : Str) (n : Nat) (hds : ds.WF)
+    (h : constrained ds q = .ok cds) (hc : contentLength cds = some n) :
+    ∃ body, respond fmt ds cs!"dods" q = .ok .dods (.complete body) ∧ body.length = n :=
+  ⟨_, (C06_same_decl fmt ds q cds h).2.1, contentLength_body cds (constrained_wf ds cds q hds h) n hc⟩
+
+/-- …and no length is announced when the constrained dataset holds a sequence (records are streamed) -/
+theorem C06_content_length_absent (cds : Dataset) (n : Str) (cols : List (Str × Str)) (rows : List (List Val))
+    (hv : Var.seq n cols rows ∈ cds.vars) : contentLength cds = none :=
+  contentLength_none_seq cds n cols rows hv
+
+/-- **the payload follows the declaration**: it is the concatenation of the encodings of the variables
+    in the order the DDS declares them; a Structure is its members in order, a Grid its array
+    followed by its maps, a nested Structure its arrays in order -/
+theorem C06_payload_order (cds : Dataset) :
+    payload cds = cds.vars.flatMap payloadVar ∧
+    (∀ n ms, payloadVar (.struct n ms) = ms.flatMap fun m => Xdr.encImpl (tmplOfMember m) (dataOfMember m)) ∧
+    (∀ k bs, Xdr.encImpl (tmplOfMember (.struct k bs)) (dataOfMember (.struct k bs)) = bs.flatMap payloadBase) ∧
+    (∀ n a ms, payloadVar (.grid n a ms) = payloadBase a ++ ms.flatMap payloadBase) :=
+  ⟨payload_vars cds, payloadVar_struct, member_struct_payload, payloadVar_grid⟩
+
+/-- **a Byte array on the wire**: its element count twice, one byte per value, then zero bytes up to
+    a multiple of four — none when the count already is one (0, 4, 8, …) -/
+theorem C06_byte_array_wire (b : Base) (hty : tyOf b.ty = .byte) (hs : b.shape ≠ []) :
+    payloadBase b = Xdr.be 4 b.data.length ++ Xdr.be 4 b.data.length ++
+      ((b.data.map (xVal .byte)).map (Xdr.toWire .byte)).flatten ++ Xdr.zeros (Xdr.pad4 b.data.length) ∧
+    (b.data.length % 4 = 0 → Xdr.pad4 b.data.length = 0) ∧
+    (b.WF → (payloadBase b).length = 8 + prod b.shape + Xdr.pad4 (prod b.shape)) := by
+  refine ⟨payloadBase_byte_array b hty hs, ?_, ?_⟩
+  · intro h; simp [Xdr.pad4, h]
+  · intro hw
+    rw [payloadBase_byte_array b hty hs]
+    have hB : Xdr.wireWidth .byte = 1 := by decide
+    have hf := flatten_toWire_xVal .byte (by decide) b.data
+    rw [hB] at hf
+    simp only [List.length_append, Xdr.be_length, hf, Xdr.zeros_length, hw.1]
+    omega
+
+/-- a Byte scalar, and a Byte column of a sequence record (sequences with a Byte column are encoded
+    record by record as Structures of scalars): the byte and three zero bytes -/
+theorem C06_byte_scalar_wire (v : Val) :
+    Xdr.encImpl (.base .byte []) (.scalar (xVal .byte v)) = Xdr.toWire .byte (xVal .byte v) ++ [0, 0, 0] :=
+  byte_scalar_wire v
+
+/-- **the declaration decodes the payload to the printed values**: when the values of the constrained
+    dataset lie in the ranges of their declared types (`Xdr.WF`: C05's domain), the client's decoder
+    (`Xdr.decImpl`, handlers/dap.py) driven by the declaration of the DDS reads the payload back to
+    exactly the data the ASCII response lists, and consumes it to the last byte -/
+theorem C06_payload_decodes (cds : Dataset) (h : Xdr.WF (tmplOf cds) (dataOf cds) = true) :
+    Xdr.decImpl (tmplOf cds) (payload cds) = .ok (dataOf cds, []) := by
+  have := Xdr.decImpl_enc (tmplOf cds) (dataOf cds) [] h
+  rw [List.append_nil] at this
+  rw [payload, Xdr.encImpl_eq _ _ h]
+  exact this
+
+/-- **constraining only ever selects values**: when every value of the source is a value of the DAP2
+    type its variable or column declares (and column names are unique: `Dataset.TY`), every value of
+    every constrained dataset is a value of the type *its* declaration prints — hyperslabs, selections,
+    record ranges, column projections in any order ("fix sequence data" re-reads rows by column name) -/
+theorem C06_values_stay_typed (ds cds : Dataset) (q : Str) (hds : ds.TY) (h : constrained ds q = .ok cds) :
+    cds.TYo := constrained_ty ds cds q hds h
+
+/-- **the declaration decodes the payload to the printed values — from hypotheses on the source only**:
+    on a well-formed, typed source, for every query that yields a constrained dataset whose declaration
+    has no empty container (and arrays below 2^31 elements: `Shaped`, a property of the DDS text), the
+    payload of the data response is the reference DAP2/XDR encoding (`XdrSpec.enc`) of the data the
+    ASCII response lists, and the client's decoder driven by that declaration reads it back to exactly
+    that data, consuming every byte.  (`C06_payload_decodes` with its hypothesis discharged by
+    `C06_values_stay_typed` and `constrained_wf`.) -/
+theorem C06_payload_decodes_source (ds cds : Dataset) (q : Str) (hw : ds.WF) (ht : ds.TY)
+    (h : constrained ds q = .ok cds) (hs : cds.Shaped) :
+    payload cds = Pydap.XdrSpec.enc (tmplOf cds) (dataOf cds) ∧
+    Xdr.decImpl (tmplOf cds) (payload cds) = .ok (dataOf cds, []) := by
+  have hx := xdrWF_of_typed cds (constrained_wf ds cds q hw h) (constrained_ty ds cds q ht h) hs
+  exact ⟨Xdr.encImpl_eq _ _ hx, C06_payload_decodes cds hx⟩
+
+/-- a String value on the wire is C05's XDR string field (length word, the bytes, zero padding to
+    4n) -/
+theorem C06_string_wire (b : Base) (s : Str) (hty : tyOf b.ty = .string) (hs : b.shape = []) (hd : b.data = [.str s]) :
+    payloadBase b = Pydap.XdrSpec.encString (strBytes s) := by
+  have hB : Xdr.wireStr .string ≠ "B" := by decide
+  have hC : Xdr.wireChar .string = 'S' := by decide
+  simp [payloadBase, tmplOfBase, dataOfBase, hs, hd, hty, Xdr.encImpl, Xdr.encBase, Xdr.encElems, hB, hC,
+    xVal, Xdr.strField, Xdr.lengthWord_eq, Pydap.XdrSpec.encString, Pydap.XdrSpec.word]
 
 /-- a member of a Structure nested in a Structure is printed under its full id by the ASCII
     response and at one more level of indentation by the declaration; its values are part of the
@@ -243,7 +337,65 @@ example : respond intText dsC cs!"ascii" cs!"st.in.r,t[2],s&s.n<\"b\"" = .ok .as
 
 example : respond intText dsC cs!"dods" cs!"st.in.r,s.n" = .ok .dods (.complete
     (cs!"Dataset {\n    Structure {\n        Structure {\n            String r[r = 2];\n        } in;\n    } st;\n    Sequence {\n        String n;\n    } s;\n} d;\nData:\n"
-      ++ cs!"s000000016b000000 s000000016c000000 s0000000261620000 s00000000 s0000000363206400")) := by
+      ++ bytesStr [0,0,0,2, 0,0,0,1,0x6b,0,0,0, 0,0,0,1,0x6c,0,0,0,
+                   0x5a,0,0,0, 0,0,0,2,0x61,0x62,0,0,  0x5a,0,0,0, 0,0,0,0,  0x5a,0,0,0, 0,0,0,3,0x63,0x20,0x64,0,  0xa5,0,0,0])) := by
   decide +kernel
+
+/-- a Byte array (values ≥ 128 too) followed by an Int32 array: four selected Bytes take no padding,
+    three take one byte, the variable after them starts right behind -/
+def dsD : Dataset := ⟨cs!"d", [
+  .base { name := cs!"flags", ty := cs!"Byte", shape := [6], dims := [], data := [10, 200, 12, 255, 14, 15] },
+  .base { name := cs!"v", ty := cs!"Int32", shape := [3], dims := [], data := [100, 200, 300] }]⟩
+
+example : dsD.WF := by
+  intro v hv; simp [dsD] at hv; rcases hv with rfl | rfl <;> exact ⟨rfl, rfl⟩
+
+example : respond intText dsD cs!"dods" cs!"flags[0:3],v[1:2]" = .ok .dods (.complete
+    (cs!"Dataset {\n    Byte flags[flags = 4];\n    Int32 v[v = 2];\n} d;\nData:\n"
+      ++ bytesStr [0,0,0,4, 0,0,0,4, 10,200,12,255,  0,0,0,2, 0,0,0,2, 0,0,0,200, 0,0,1,44])) := by
+  decide +kernel
+
+def cdsD : Dataset := ⟨cs!"d", [
+  .base { name := cs!"flags", ty := cs!"Byte", shape := [4], dims := [], data := [10, 200, 12, 255] },
+  .base { name := cs!"v", ty := cs!"Int32", shape := [2], dims := [], data := [200, 300] }]⟩
+
+example : constrained dsD cs!"flags[0:3],v[1:2]" = .ok cdsD := by decide +kernel
+
+/-- the hypotheses of `C06_content_length` are met: 62 bytes of DDS, `Data:\n`, 8 + 4 + 0 for the four
+    Bytes, 8 + 2·4 for the Int32s -/
+example : contentLength cdsD = some (62 + 6 + 12 + 16) := by
+  have hB : Xdr.wireStr .byte = "B" := by decide
+  have hB' : Xdr.wireStr .int32 ≠ "B" := by decide
+  have hC : Xdr.wireChar .byte ≠ 'S' := by decide
+  have hC' : Xdr.wireChar .int32 ≠ 'S' := by decide
+  have w : Xdr.wireWidth .int32 = 4 := by decide
+  have t1 : tyOf cs!"Byte" = .byte := by decide
+  have t2 : tyOf cs!"Int32" = .int32 := by decide
+  have l : (strBytes (ddsText cdsD)).length = 62 := by decide +kernel
+  simp [contentLength, Xdr.calcSize, l]
+  simp [cdsD, tmplOf, tmplOfVar, tmplOfBase, Xdr.calcData, Xdr.calcDatas, t1, t2, hB, hB', hC, hC', w, Xdr.prod, Xdr.pad4, Xdr.dataMarker]
+
+example : (constrained dsD cs!"flags[1:3],v").toOption.map payload
+    = some [0,0,0,3, 0,0,0,3, 200,12,255,0,  0,0,0,3, 0,0,0,3, 0,0,0,100, 0,0,0,200, 0,0,1,44] := by
+  decide +kernel
+
+example : respond intText dsD cs!"ascii" cs!"flags[1:3]" = .ok .ascii (.complete
+    (cs!"Dataset {\n    Byte flags[flags = 3];\n} d;\n" ++ dashes ++ cs!"flags\n[0] 200\n[1] 12\n[2] 255\n\n")) := by
+  decide +kernel
+
+/-- the hypotheses of `C06_payload_decodes_source` are met by `dsD` and `flags[0:3],v[1:2]` -/
+example : dsD.TY ∧ cdsD.Shaped := by
+  refine ⟨?_, by simp [cdsD], ?_⟩
+  · intro v hv; simp [dsD] at hv
+    rcases hv with rfl | rfl <;> intro x hx <;> simp at hx <;> rcases hx with rfl | rfl | rfl | rfl | rfl | rfl <;> (unfold okVal; decide)
+  · intro v hv; simp [cdsD] at hv
+    rcases hv with rfl | rfl <;> simp [Var.Shaped, Base.Small, prod]
+
+/-- the hypothesis of `C06_payload_decodes` is met: Byte scalar, Float64 and String values in range -/
+example : Xdr.WF (tmplOf dsD) (dataOf dsD) = true := by decide +kernel
+
+/-- floats travel as the IEEE bit pattern of the (integer) value -/
+example : f64bits 1 = 0x3FF0000000000000 ∧ f64bits (-2) = 0xC000000000000000 ∧ f32bits 3 = 0x40400000 ∧
+    f32bits (-9999) = 0xC61C3C00 ∧ f64bits 0 = 0 := by decide +kernel
 
 end Pydap.C06
